@@ -4,15 +4,19 @@ import ExecModel.Basic
   `executorlib/interactive/shared.py`: `_get_future_objects_from_input` (`futuresOf`, `ready`) and
   `_update_futures_in_input` (`subst`).  Futures are looked for at the top level of `args`, in the
   values of `kwargs`, and inside nested **lists**; tuples, dicts and anything else are left alone.
+  Every container node carries the name of its Python class (`"list"`, `"tuple"`, `"dict"`, or a
+  subclass such as a namedtuple class, `OrderedDict`, a user subclass of `list`): an instance of a
+  subclass of `list` is searched and resolved like a list and keeps its class (fix of defect D32:
+  the code used to rebuild it as a plain `list`).
 -/
 namespace ExecModel.Args
 
 inductive Arg (V : Type) where
   | val (v : V)
   | fut (j : Nat)
-  | list (xs : List (Arg V))
-  | tuple (xs : List (Arg V))
-  | dict (kvs : List (String × Arg V))
+  | list (cls : String) (xs : List (Arg V))
+  | tuple (cls : String) (xs : List (Arg V))
+  | dict (cls : String) (kvs : List (String × Arg V))
   deriving Repr
 
 variable {V : Type}
@@ -22,9 +26,9 @@ mutual
 def futuresOf : Arg V → List Nat
   | .val _ => []
   | .fut j => [j]
-  | .list xs => futuresOfL xs
-  | .tuple _ => []
-  | .dict _ => []
+  | .list _ xs => futuresOfL xs
+  | .tuple _ _ => []
+  | .dict _ _ => []
 /-- `find_future_in_list(lst)`. -/
 def futuresOfL : List (Arg V) → List Nat
   | [] => []
@@ -36,12 +40,25 @@ mutual
 def subst (σ : Nat → V) : Arg V → Arg V
   | .val v => .val v
   | .fut j => .val (σ j)
-  | .list xs => .list (substL σ xs)
-  | .tuple xs => .tuple xs
-  | .dict kvs => .dict kvs
+  | .list c xs => .list c (substL σ xs)
+  | .tuple c xs => .tuple c xs
+  | .dict c kvs => .dict c kvs
 def substL (σ : Nat → V) : List (Arg V) → List (Arg V)
   | [] => []
   | a :: as => subst σ a :: substL σ as
+end
+
+mutual
+/-- the classes of the container nodes, in traversal order (tuples and dicts are leaves of the traversal) -/
+def classes : Arg V → List String
+  | .val _ => []
+  | .fut _ => []
+  | .list c xs => c :: classesL xs
+  | .tuple c _ => [c]
+  | .dict c _ => [c]
+def classesL : List (Arg V) → List String
+  | [] => []
+  | a :: as => classes a ++ classesL as
 end
 
 /-- A submitted call: positional arguments and keyword arguments (insertion ordered). -/
